@@ -242,6 +242,12 @@ pub fn judge(spec: &Spec, u: Option<&HirSpec>, s: Option<&HirSpec>) -> Vec<Findi
             let class = if only_required_flip_on_body && body_class == "allof_body_required" { "allof_body_required" } else { "" };
             out.push(f("C05", class, format!("{} {}: declared inputs {:?} but extracted {:?}", so.method, pi.path, declared, got)));
         }
+        // ---------------- C03: every input keeps its OpenAPI name at its location (the name is the key it is sent under)
+        for (n, l, _) in &got {
+            if !declared.iter().any(|d| &d.0 == n && d.1 == *l) {
+                out.push(f("C03", "", format!("{} {}: input {:?} is sent in {:?}, where the document declares no parameter or property of that name", so.method, pi.path, n, l)));
+            }
+        }
         // ---------------- C08: parameter / body-property / result types
         let mut want_ty: Vec<(String, DocTy)> = vec![];
         for p in so.params.iter().chain(pi.params.iter()) {
@@ -383,7 +389,7 @@ pub fn judge(spec: &Spec, u: Option<&HirSpec>, s: Option<&HirSpec>) -> Vec<Findi
     }
     // ---------------- C07: closure after pruning
     let mut mention = |what: String, t: &Ty, out: &mut Vec<Finding>| {
-        if let Some(m) = t.inner_model() {
+        if let Some(m) = crate::util::model_of(t) {
             if !s.schemas.contains_key(m) {
                 let class = match comp(spec, m) {
                     Some(c) if matches!(&c.kind, Kind::Array { items: Some(SRef::Inl(_)) }) => "array_component_inline_items",
